@@ -319,8 +319,46 @@ def reproducibility_search(ctx):
         dist.get_rank, dist.get_world_size = old
 
 
+def adaptive_value_in_force_search(ctx):
+    """adaptive clipping: in every step the gradient noise is requested with std = (the optimizer's noise multiplier) x
+    (the clipping norm IN FORCE AT THAT STEP, i.e. the one the step's gradients were clipped with), not the norm the
+    step is about to adapt to; one request per parameter plus the scalar count noise.  Real AdaClipDPOptimizer only."""
+    from opacus import GradSampleModule
+    from opacus.optimizers import AdaClipDPOptimizer
+
+    for trial in range(ctx.n(6, 80)):
+        torch.manual_seed(ctx.rng.randrange(1 << 30))
+        i, o = ctx.rng.randint(2, 4), ctx.rng.randint(1, 3)
+        model = nn.Linear(i, o, bias=ctx.rng.random() < 0.5).double()
+        params = list(model.parameters())
+        gsm = GradSampleModule(model)
+        sigma, c0 = ctx.rng.choice([0.6, 1.0, 1.5]), ctx.rng.choice([0.05, 0.5, 5.0])
+        opt = AdaClipDPOptimizer(torch.optim.SGD(params, lr=0.1), noise_multiplier=sigma, max_grad_norm=c0, expected_batch_size=4, loss_reduction="mean",
+                                 target_unclipped_quantile=ctx.rng.choice([0.2, 0.5, 0.8]), clipbound_learning_rate=ctx.rng.choice([0.5, 1.0]),
+                                 max_clipbound=1e3, min_clipbound=1e-3, unclipped_num_std=ctx.rng.choice([2.0, 4.0]))   # needs sigma < 2 * unclipped_num_std
+        moved = 0
+        for step in range(4):
+            c_before, s_now = float(opt.max_grad_norm), float(opt.noise_multiplier)
+            x = torch.randn(4, i, dtype=torch.float64) * ctx.rng.choice([0.1, 1.0, 10.0])
+            opt.zero_grad()
+            gsm(x).pow(2).sum(1).mean().backward()
+            with rig.patched_normal("zero") as log:
+                opt.step()
+            stds = [c[0] for c in log.calls if len(c[1]) > 0 and tuple(c[1]) != ()]  # parameter-shaped requests
+            want = s_now * c_before
+            moved += float(opt.max_grad_norm) != c_before
+            ctx.case(("adaclip-noise", trial, step), nontrivial=float(opt.max_grad_norm) != c_before, kind="adaptive:value-in-force")
+            if len(stds) != len(params) or any(not core.close(float(sd), want, 1e-9) for sd in stds):
+                ctx.property_failure("C04:adaptive:noise-std-not-in-force",
+                                     f"AdaClipDPOptimizer step {step}: gradients clipped with C={c_before}, noise multiplier {s_now}: gradient-noise requests have std {stds}, "
+                                     f"expected {len(params)} x {want} (bound after the step: {float(opt.max_grad_norm)})", {"failing_input": {"trial": trial, "step": step}})
+                break
+            ctx.validated()
+
+
 def run(ctx):
     with rig.default_dtype(torch.float64):
+        adaptive_value_in_force_search(ctx)
         request_cases(ctx)
         history_cases(ctx)
         reproducibility_search(ctx)
